@@ -18,6 +18,11 @@ pub assume_specification<T>[<T as From<T>>::from](t: T) -> (r: T) ensures r == t
 pub uninterp spec fn pct_decode(raw: Seq<char>) -> Option<Seq<char>>;
 pub struct PercentDecode<'a> { pub raw: &'a str }
 #[verifier::external_body] pub struct Utf8Error { _p: u8 }
+impl Utf8Error {
+    /// API neighbourhood (not called by the unchanged code): no postcondition
+    #[verifier::external_body] pub fn error_len(&self) -> (r: Option<usize>) { unimplemented!() }
+    #[verifier::external_body] pub fn valid_up_to(&self) -> (r: usize) { unimplemented!() }
+}
 pub fn percent_decode_str<'a>(s: &'a str) -> (r: PercentDecode<'a>) ensures r.raw@ == s@ { PercentDecode { raw: s } }
 /// std::borrow::Cow<'a, str> (the payload type is fixed to `str`: `Cow<'r, str>` is retyped to `Cow<'r>`, rule N7)
 pub enum Cow<'a> { Borrowed(&'a str), Owned(String) }
@@ -173,6 +178,7 @@ pub mod mime {
     }
     /// mime::APPLICATION / mime::WWW_FORM_URLENCODED (constants of an opaque type: retyped to calls, rule N7)
     #[verifier::external_body] pub fn application() -> (r: Name<'static>) ensures name_text(&r) == "application"@ { unimplemented!() }
+    #[verifier::external_body] pub fn json() -> (r: Name<'static>) ensures name_text(&r) == "json"@ { unimplemented!() }
     #[verifier::external_body] pub fn www_form_urlencoded() -> (r: Name<'static>) ensures name_text(&r) == "x-www-form-urlencoded"@ { unimplemented!() }
 }
 #[verifier::external_body] pub struct PathError { _p: u8 }
